@@ -229,6 +229,11 @@ impl<const H: usize> Reader<H> {
             });
         }
 
+        // A stored length smaller than the fixed header can only come from corruption
+        if payload_len < H {
+            return Err(ReadError::Crc32cMismatch { offset });
+        }
+
         // Read header + data payload
         let (header, compressed_data) = if payload_len <= OPTIMISTIC_DATA_SIZE
             && optimistic_read_len >= RECORD_HEAD_SIZE + payload_len
@@ -341,6 +346,11 @@ impl<const H: usize> Reader<H> {
                 length: RECORD_HEAD_SIZE + payload_len,
                 flushed_offset,
             });
+        }
+
+        // A stored length smaller than the fixed header can only come from corruption
+        if payload_len < H {
+            return Err(ReadError::Crc32cMismatch { offset });
         }
 
         let payload = self
